@@ -344,6 +344,8 @@ def detectXMLEncoding(fp, log=None, includeDefault=True):  # noqa: C901
     """
     if isinstance(fp, str):
         fp = io.StringIO(fp)
+    elif isinstance(fp, bytes):
+        fp = io.BytesIO(fp)
 
     # detection using BOM
 
@@ -359,7 +361,10 @@ def detectXMLEncoding(fp, log=None, includeDefault=True):  # noqa: C901
     # go to beginning of file and get the first 4 bytes
     oldFP = fp.tell()
     fp.seek(0)
-    (byte1, byte2, byte3, byte4) = tuple(map(ord, fp.read(4)))
+    # characters or bytes (ValueError if there are fewer than four)
+    (byte1, byte2, byte3, byte4) = (
+        c if isinstance(c, int) else ord(c) for c in fp.read(4)
+    )
 
     # try bom detection using 4 bytes, 3 bytes, or 2 bytes
     bomDetection = bomDict.get((byte1, byte2, byte3, byte4))
@@ -384,6 +389,9 @@ def detectXMLEncoding(fp, log=None, includeDefault=True):  # noqa: C901
     # assume xml declaration fits into the first 2 KB (*cough*)
     fp.seek(0)
     buffer = fp.read(2048)
+    if isinstance(buffer, bytes):
+        # the declaration itself is ASCII
+        buffer = buffer.decode('latin-1')
 
     # set up regular expression
     xmlDeclPattern = r"""
